@@ -179,10 +179,19 @@ def check_scoped(inp):
     base_ns.add_declaration("class Only")
     base_ns.add_declaration("class Base")
     derived = outer.add_declaration("class Derived : public base_ns::Base")
-    scopes = {"": lib, "outer": outer, "outer::inner": inner, "outer::Derived": derived}
+    # a namespace in which a name is looked up BEFORE the namespace declares its own class of that name
+    late = lib.add_namespace("late")
+    try:
+        declast.check_decl("void warm(Data *d, Top *t)", late)
+    except RuntimeError:
+        pass
+    late.add_declaration("class Data")
+    late.add_declaration("class Top")
+    scopes = {"": lib, "outer": outer, "outer::inner": inner, "outer::Derived": derived, "late": late}
     lines = ["#include <string>", "#include <vector>", "#include <type_traits>", "class Data; class Top;",
              "namespace base_ns { class Data; class Only; class Base {}; }",
-             "namespace outer { class Data; namespace inner { class Data; class Leaf; } }"]
+             "namespace outer { class Data; namespace inner { class Data; class Leaf; } }",
+             "namespace late { class Data; class Top; }"]
     index = {}
     n = 0
     for i, (scope, text) in enumerate(inp["items"]):
@@ -310,6 +319,18 @@ def check(inp):
     if cxx is not None and c is not None:
         if cxx.count("*") + cxx.count("&") != c.count("*") or "&" in c:
             return "C rendering %r of %r does not turn references into pointers one for one (C++ rendering %r)" % (c, decl, cxx)
+    # the same for every parameter of a function, and for the parameters of its function-pointer parameters
+    if a.params is not None:
+        try:
+            for p_ in a.params:
+                cxxp, cp = p_.gen_arg_as_cxx(), p_.gen_arg_as_c()
+                if cxxp.count("*") + cxxp.count("&") != cp.count("*") or "&" in cp:
+                    return "C rendering %r of the parameter %r of %r keeps a reference or changes the pointer structure (C++ rendering %r)" % (
+                        cp, p_.name, decl, cxxp)
+        except (RuntimeError, NotImplementedError):
+            pass
+        except Exception as ex:
+            return "rendering raised %s: %s for a parameter of %r" % (type(ex).__name__, str(ex)[:60], decl)
     return None
 
 
@@ -380,7 +401,7 @@ def scoped_family():
     names = ["Data", "::Data", "outer::Data", "::outer::Data", "inner::Data", "outer::inner::Data", "::outer::inner::Data", "Top", "::Top",
              "Leaf", "inner::Leaf", "std::string", "::std::string", "Only", "base_ns::Data", "base_ns::Only"]
     items = []
-    for scope in ("", "outer", "outer::inner", "outer::Derived"):
+    for scope in ("", "outer", "outer::inner", "outer::Derived", "late"):
         for nm in names:
             items.append([scope, "void f(%s *d)" % nm])
             items.append([scope, "%s *f()" % nm])
@@ -403,6 +424,9 @@ KEYWORD_PREFIXED = {
 
 def candidates(seed, around=None):
     yield {"kind": "cxx", "texts": sorted(KEYWORD_PREFIXED), "names": KEYWORD_PREFIXED}
+    for s in ("int", "double", "const char"):
+        yield {"text": "void apply(%s (*fn)(%s &count, const double *vals), %s &total)" % (s if s != "const char" else "char", s, s)}
+        yield {"text": "void visit(void (*cb)(const %s &item, int &n))" % s.replace("const ", "")}
     fam = cxx_family() + ["%s a" % s for s in INTSPEC] + ["%s *f(%s a, const %s *b)" % (s, s, s) for s in INTSPEC]
     sc = scoped_family()
     for i in range(0, len(sc), 45):
